@@ -406,6 +406,14 @@ pub fn api_ordering(rng: &mut Rng, names: &[String]) -> Vec<NamedSymbol> {
         next_id += 1;
     }
     for k in (1..ord.len()).rev() { let j = rng.below(k as u64 + 1) as usize; ord.swap(k, j); }
+    // every sixth ordering: ids beyond 32 bits (a row in the high word, a column in the low one), chosen so that the
+    // order of the low words differs from the order of the ids and two ids share their low word
+    if rng.chance(1, 6) {
+        let wide: [usize; 8] = [(1 << 32) | 5, (2 << 32) | 5, (3 << 32) | 1, 7, u32::MAX as usize, 1 << 32, (1 << 33) | 2, (5 << 40) | 3];
+        let mut picks: Vec<usize> = wide.to_vec();
+        for k in (1..picks.len()).rev() { let j = rng.below(k as u64 + 1) as usize; picks.swap(k, j); }
+        for (i, o) in ord.iter_mut().enumerate() { o.id = picks[i % picks.len()] + (i / picks.len()) * 1000; }
+    }
     ord
 }
 
@@ -711,7 +719,9 @@ pub fn c02_lang(out: &mut dyn Write, tier: &str, rng: &mut Rng, st: &mut Stats) 
         let depth = 1 + rng.below(4) as u32;
         let gf = { let mut g = Gen { rng, names, allow_fix: i % 7 == 0, big_consts: false, max_list: 3 }; g.gen(depth, &Pol::new()) };
         let text = Printer { rng, noise: false }.print(&gf);
-        let line = eval_line("C02", &gf, &text, st);
+        // every fourth formula under an ordering handed over through the API (sparse, unsorted, sometimes beyond 32 bits)
+        let ord = if i % 4 == 3 { st.hit("lang.api-ordering"); Some(api_ordering(rng, &names_of(&gf))) } else { None };
+        let line = eval_line_ord("C02", &gf, &text, ord, st);
         writeln!(out, "{}", line).unwrap();
         st.hit("lang.named");
     }
